@@ -17,6 +17,7 @@ package main
 import (
 	"fmt"
 	"math"
+	"strings"
 
 	"github.com/unixpickle/model3d/model2d"
 	"github.com/unixpickle/model3d/model3d"
@@ -903,6 +904,10 @@ func main() {
 	if r.Replay != "" {
 		var c bcase
 		r.LoadReplay(&c)
+		if strings.HasPrefix(c.Solid, "BoundsValid") || strings.HasPrefix(c.Solid, "2d.BoundsValid") || strings.HasPrefix(c.Solid, "BoundsUnion") || c.Solid == "InBounds" {
+			bounderStage(r)
+			r.Finish()
+		}
 		n := 0
 		visit := func(l leaf3) {
 			if l.name == c.Solid {
@@ -944,6 +949,7 @@ func main() {
 		}
 		r.Finish()
 	}
+	r.Isolate("bounder-helpers", func() { bounderStage(r) })
 	r.Isolate("leaves", func() {
 		all := append(append(prim3(full), derived3(full)...), smooth3(full)...)
 		ev.Parallel(len(all), 0, func(i int) { checkLeaf3(r, all[i]) })
